@@ -69,7 +69,7 @@ static void resolve()
 struct FdInfo { char kind; long id; int registered; unsigned mask; epoll_data_t data; };
 static FdInfo fds[MAXFD];
 
-static slk_emit_fn emit_cb; static slk_peek_fn peek_cb; static slk_announce_fn announce_cb; static slk_foreign_fn foreign_cb;
+static slk_emit_fn emit_cb; static slk_peek_fn peek_cb; static slk_announce_fn announce_cb; static slk_foreign_fn foreign_cb; static slk_now_fn now_cb;
 static int armed = 0, in_run = 0, depth = 0, connect_mode = 0;
 static long long vclock = 0, last_now = 0;
 static int evfd = -1;
@@ -98,10 +98,10 @@ static void emitf(const char* fmt, ...)
   if(emit_cb) emit_cb(buf);
 }
 
-extern "C" void slk_reset(slk_emit_fn emit, slk_peek_fn peek, slk_announce_fn announce, slk_foreign_fn foreign)
+extern "C" void slk_reset(slk_emit_fn emit, slk_peek_fn peek, slk_announce_fn announce, slk_foreign_fn foreign, slk_now_fn now)
 {
   resolve();
-  emit_cb = emit; peek_cb = peek; announce_cb = announce; foreign_cb = foreign;
+  emit_cb = emit; peek_cb = peek; announce_cb = announce; foreign_cb = foreign; now_cb = now;
   memset(fds, 0, sizeof(fds));
   armed = 0; in_run = 0; depth = 0; connect_mode = 0; vclock = 0; last_now = 0; evfd = -1; exp_kind = 0;
   nitems = curitem = 0;
@@ -198,7 +198,7 @@ extern "C" int clock_gettime(clockid_t clk, struct timespec* ts)
     return real_clock_gettime(clk, ts);
   ts->tv_sec = (time_t)(vclock / 1000);
   ts->tv_nsec = (long)(vclock % 1000) * 1000000L;
-  if(in_run && depth == 0) { last_now = vclock; emitf("now %lld", vclock); }
+  if(in_run && depth == 0) { last_now = vclock; emitf("now %lld", vclock); if(now_cb) now_cb(); }
   return 0;
 }
 
